@@ -19,6 +19,7 @@ var errInjected = errors.New("injected: too many open files")
 
 type gate struct {
 	match   string // substring of the page factory's path
+	skip    int    // number of matching stores that pass before one is parked
 	hit     chan struct{}
 	release chan struct{}
 	once    sync.Once
@@ -27,7 +28,7 @@ type gate struct {
 
 var (
 	gateMu     sync.Mutex
-	curGate    *gate
+	gates      []*gate // armed gates; several may hold a parked store at the same time
 	faultMatch string // one-shot: the next page factory whose path matches fails to open
 	faultFired bool
 )
@@ -47,17 +48,22 @@ func disarmFault() bool {
 	return faultFired
 }
 
-func armGate(match string) *gate {
-	g := &gate{match: match, hit: make(chan struct{}, 1), release: make(chan struct{})}
+func armGate(match string) *gate { return armGateN(match, 0) }
+
+// armGateN arms one more gate: the (skip+1)-th store into a page under a matching path is parked.
+// Gates armed earlier stay armed (two stores can be parked at the same time).
+func armGateN(match string, skip int) *gate {
+	g := &gate{match: match, skip: skip, hit: make(chan struct{}, 1), release: make(chan struct{})}
 	gateMu.Lock()
-	curGate = g
+	gates = append(gates, g)
 	gateMu.Unlock()
 	return g
 }
 
+// disarmGate disarms every gate (parked stores must have been released before).
 func disarmGate() {
 	gateMu.Lock()
-	curGate = nil
+	gates = nil
 	gateMu.Unlock()
 }
 
@@ -102,10 +108,19 @@ type gatedPage struct {
 
 func (p *gatedPage) PutUint64(value uint64, offset int) {
 	gateMu.Lock()
-	g := curGate
-	park := g != nil && !g.fired && strings.Contains(p.path, g.match)
-	if park {
-		g.fired = true
+	var g *gate
+	park := false
+	for _, c := range gates {
+		if c.fired || !strings.Contains(p.path, c.match) {
+			continue
+		}
+		// the first armed gate that matches sees the store: it lets it pass or parks it
+		if c.skip > 0 {
+			c.skip--
+		} else {
+			c.fired, g, park = true, c, true
+		}
+		break
 	}
 	gateMu.Unlock()
 	if park {
